@@ -832,6 +832,17 @@ theorem valid_step {s : St} (h : Valid s) (t : Tables s) (op : Op) :
     | pick call pn m ctx dl req => have := step_opPick h call pn m ctx dl req; exact ⟨valid_of_step h this.1, this.2⟩
     | ctxdone call => have := step_opCtxDone h call; exact ⟨valid_of_step h this.1, this.2⟩
     | done call err reply => have := step_opDone h call err reply; exact ⟨valid_of_step h this.1, this.2⟩
+    | pickHold call pn m ctx dl req =>
+      refine opPickHold_cases2 (fun r => Valid r.1 ∧ noPanic r.2) s call pn m ctx dl req ⟨h, by simp [noPanic]⟩
+        (fun _ => ⟨valid_of_step h (step_of_same ⟨rfl, rfl, rfl, rfl, rfl, rfl, rfl⟩), by simp [noPanic]⟩) ?_
+      have := step_opPick h call pn m ctx dl req; exact ⟨valid_of_step h this.1, this.2⟩
+    | resume call =>
+      refine opResume_cases2 (fun r => Valid r.1 ∧ noPanic r.2) s call ⟨h, by simp [noPanic]⟩
+        (fun _ => ⟨valid_of_step h (step_of_same ⟨rfl, rfl, rfl, rfl, rfl, rfl, rfl⟩), by simp [noPanic]⟩) ?_
+      intro hl c hc _
+      have h' : Valid { s with held := hl } := valid_of_step h (step_of_same ⟨rfl, rfl, rfl, rfl, rfl, rfl, rfl⟩)
+      have := step_newSubConn { s with held := hl } (by show s.cfg ≠ none; rw [hc]; simp)
+      exact ⟨valid_of_step h' this.1, noPanic_append (noPanic_of_noRes this.2) (by simp [noPanic])⟩
   unfold step
   generalize stepCore s op = r at h1 ⊢
   obtain ⟨s1, ev⟩ := r
